@@ -146,7 +146,7 @@ def main():
     _JOBS = [(a.seed * 1000003 + i, h) for i, h in enumerate(hists)]
     sess = docs.build_sessions(job, range(len(_JOBS)))
     docs.selftest_session(next(s for s in sess if len(s['log']) > 10 and any(e['ev'] == 'call' and e['op'] == 'dumps' and not e['args']['hasto'] and not e['args']['hasfrom'] and e['res']['ok'] for e in s['log'])))
-    docs.validate_sessions(run, sess, symptom_of=lambda clause, ev, s: clause)
+    docs.validate_sessions(run, sess, symptom_of=lambda clause, ev, s: clause, relevant=docs.relevant_for(run.pid))
     run.evaluations = sum(len(s.get('hist', ())) for s in sess)
     for s in sess:
         h = s.get('hist', ())
